@@ -14,6 +14,8 @@
     has exactly the volume of the covered shells (`C01_radial`, `shells_telescope`).
 -/
 import DropletsVerif.Lemmas.RealInst
+import DropletsVerif.Props.C02
+import DropletsVerif.Lemmas.BallConn
 import DropletsVerif.Generated.Spherical
 import Mathlib.Tactic
 import Mathlib.Algebra.BigOperators.Intervals
@@ -158,5 +160,249 @@ theorem volume_at_zero (d : ℕ) (hd : d = 1 ∨ d = 2 ∨ d = 3) :
 2.5, 3.5), cells 0 and 4 are outside; the mean 2.5 is within 0.5 of 2.3 -/
 example : IsRun (0 : ℚ) 1 (23 / 10) ((17 / 10) ^ 2) 1 3 := by
   constructor <;> norm_num [cellCentre]
+
+end DV.C01
+
+/-! ### one droplet in the model pipeline: rendering (C03) -> labelling -> periodic merging (C02)
+
+The geometric input is Lemmas/BallConn.lean: from every covered cell one can walk by face steps of the
+grid's topology, never increasing the distance to the centre, to THE cell nearest to the centre; hence the
+covered cells form one component, for every grid, centre and radius. -/
+
+namespace DV.C01
+open DV.Merge DV.MergeInv DV.Label DV.LabelInv DV.GridGeom DV.Render DV.BallConn DV.C02 Relation
+
+variable (axes : List Axis) (ctr : List ℚ)
+
+/-- the sharp image of ONE droplet (centre `ctr`, radius `R`) over the flat cells of the grid:
+exactly the rendering of C03 (`DV.Render.inside`) -/
+def ballMask (R : ℚ) (c : ℕ) : Bool :=
+  decide (c < numCells (shapeOf axes)) && inside axes ctr R (unflat (shapeOf axes) c)
+
+theorem ballMask_iff (R : ℚ) (c : ℕ) :
+    ballMask axes ctr R c = true ↔ c < numCells (shapeOf axes) ∧ D axes ctr c < R * R := by
+  unfold ballMask inside D
+  rw [dist2_eq_dist2r]
+  simp
+
+theorem adj_faceAdj {a b : ℕ} (h : Adj axes a b) :
+    FaceAdj (shapeOf axes) (perOf axes) a b ∨ FaceAdj (shapeOf axes) (perOf axes) b a := by
+  obtain ⟨ax, h1 | h2 | h3 | h4⟩ := h
+  · exact Or.inl ⟨ax, Or.inl h1⟩
+  · exact Or.inl ⟨ax, Or.inr h2⟩
+  · exact Or.inr ⟨ax, Or.inl h3⟩
+  · exact Or.inr ⟨ax, Or.inr h4⟩
+
+theorem path_conn (R : ℚ) {a b : ℕ} (hp : Path axes ctr a b) (ha : ballMask axes ctr R a = true) :
+    ballMask axes ctr R b = true ∧ GridConn (shapeOf axes) (perOf axes) (ballMask axes ctr R) a b := by
+  induction hp with
+  | refl => exact ⟨ha, EqvGen.refl _⟩
+  | tail _ hstep ih =>
+    obtain ⟨hb, hconn⟩ := ih
+    rename_i b c _
+    obtain ⟨_, hc, hadj, hle⟩ := hstep
+    have hmc : ballMask axes ctr R c = true := by
+      rw [ballMask_iff] at hb ⊢
+      exact ⟨hc, lt_of_le_of_lt hle hb.2⟩
+    refine ⟨hmc, EqvGen.trans _ _ _ hconn ?_⟩
+    rcases adj_faceAdj axes hadj with hf | hf
+    · exact EqvGen.rel _ _ ⟨hb, hmc, Or.inr hf⟩
+    · exact EqvGen.symm _ _ (EqvGen.rel _ _ ⟨hmc, hb, Or.inr hf⟩)
+
+/-- **The cells covered by a droplet form ONE component of the grid's topology** — for every grid
+(any dimension, anisotropic spacing, any mix of periodic axes), every centre (inside or outside the box)
+and every radius. -/
+theorem ball_connected (h : GridWF axes ctr) (R : ℚ) {c1 c2 : ℕ}
+    (m1 : ballMask axes ctr R c1 = true) (m2 : ballMask axes ctr R c2 = true) :
+    GridConn (shapeOf axes) (perOf axes) (ballMask axes ctr R) c1 c2 := by
+  obtain ⟨t, _, p1, p2⟩ := common_descent axes ctr h ((ballMask_iff axes ctr R c1).mp m1).1 ((ballMask_iff axes ctr R c2).mp m2).1
+  exact EqvGen.trans _ _ _ (path_conn axes ctr R p1 m1).2 (EqvGen.symm _ _ (path_conn axes ctr R p2 m2).2)
+
+/-- **Exactly one cluster per droplet.**  Rendering one droplet, labelling the image and merging across
+the periodic boundaries (`locateMask`: the pipeline the driver runs against `locate_droplets`) puts
+all covered cells into the same cluster. -/
+theorem single_droplet_one_cluster (h : GridWF axes ctr) (R : ℚ) (coord : ℕ → ℕ → ℕ) (cells : List ℕ) (shp : ℕ → ℕ) :
+    let mask := ballMask axes ctr R
+    let L := labelFn (shapeOf axes) mask
+    let st := mergeLoop shp L (initSt coord L cells) (edgesOf (shapeOf axes) (perOf axes))
+    ∀ c1 c2, mask c1 = true → mask c2 = true → st.lab c1 = st.lab c2 := by
+  intro mask L st c1 c2 m1 m2
+  have hmask : ∀ c, mask c = true → c < numCells (shapeOf axes) := fun c hc => ((ballMask_iff axes ctr R c).mp hc).1
+  exact (locateMask_topology (shapeOf axes) (perOf axes) mask (shape_pos axes ctr h) hmask coord cells shp c1 c2 m1 m2).mpr
+    (ball_connected axes ctr h R m1 m2)
+
+
+/-! ### the executed pipeline returns exactly one cluster with the number of covered cells -/
+
+theorem lab_mem_init (shape : ℕ → ℕ) (lab0 : ℕ → ℕ) (coord : ℕ → ℕ → ℕ) (cells : List ℕ) (edges : List Edge) :
+    ∀ c, ∃ c', (mergeLoop shape lab0 (initSt coord lab0 cells) edges).lab c = lab0 c' := by
+  have := foldl_inv shape lab0 (fun st _ => ∀ c, ∃ c', st.lab c = lab0 c')
+    (fun st es e hinv => by
+      by_cases hm : Merging st e
+      · intro c
+        rw [step_lab shape lab0 st e hm c]
+        split
+        · exact hinv e.l
+        · exact hinv c
+      · rw [step_noop shape lab0 st e hm]; exact hinv)
+    edges (initSt coord lab0 cells) [] (fun c => ⟨c, rfl⟩)
+  simpa [mergeLoop] using this
+
+theorem foldl_max_ge (l : List ℕ) (a : ℕ) : a ≤ l.foldl max a ∧ ∀ x ∈ l, x ≤ l.foldl max a := by
+  induction l generalizing a with
+  | nil => simp
+  | cons y l ih =>
+    obtain ⟨h1, h2⟩ := ih (max a y)
+    simp only [List.foldl_cons]
+    refine ⟨le_trans (le_max_left a y) h1, ?_⟩
+    intro x hx
+    rcases List.mem_cons.mp hx with rfl | hx
+    · exact le_trans (le_max_right a x) h1
+    · exact h2 x hx
+
+theorem getD_le_foldl_max (l : List ℕ) (c : ℕ) : l.getD c 0 ≤ l.foldl max 0 := by
+  by_cases hc : c < l.length
+  · rw [List.getD_eq_getElem?_getD, List.getElem?_eq_getElem hc]
+    exact (foldl_max_ge l 0).2 _ (List.getElem_mem hc)
+  · rw [List.getD_eq_getElem?_getD, List.getElem?_eq_none (by omega)]; simp
+
+theorem filter_eq_singleton {p : ℕ → Bool} {a : ℕ} : ∀ (l : List ℕ), l.Nodup → a ∈ l → (∀ x ∈ l, p x = true ↔ x = a) →
+    l.filter p = [a]
+  | [], _, h, _ => by simp at h
+  | y :: l, hnd, hmem, hp => by
+    obtain ⟨hy, hnd'⟩ := List.nodup_cons.mp hnd
+    by_cases hya : y = a
+    · subst hya
+      have : p y = true := (hp y List.mem_cons_self).mpr rfl
+      rw [List.filter_cons_of_pos this]
+      congr 1
+      apply List.filter_eq_nil_iff.mpr
+      intro x hx hpx
+      have := (hp x (List.mem_cons_of_mem _ hx)).mp hpx
+      subst this
+      exact hy hx
+    · have hpy : ¬ p y = true := fun hpy => hya ((hp y List.mem_cons_self).mp hpy)
+      rw [List.filter_cons_of_neg hpy]
+      have hmem' : a ∈ l := by
+        rcases List.mem_cons.mp hmem with h | h
+        · exact absurd h.symm hya
+        · exact h
+      exact filter_eq_singleton l hnd' hmem' (fun x hx => hp x (List.mem_cons_of_mem _ hx))
+
+theorem count_eq_length (lab : ℕ → ℕ) (r : ℕ) (cells : List ℕ) :
+    count lab r cells = ((cells.filter fun c => lab c == r).length : ℚ) := by
+  unfold count wsum
+  induction cells with
+  | nil => simp
+  | cons c cells ih =>
+    simp only [List.map_cons, List.sum_cons, List.filter_cons]
+    by_cases hc : lab c = r
+    · simp [hc, ih]; ring
+    · simp [hc, ih]
+
+theorem edgesOf_cells (shape : List ℕ) (periodic : List Bool) (hpos : ∀ n ∈ shape, 0 < n) :
+    ∀ e ∈ edgesOf shape periodic, e.l ∈ List.range (numCells shape) ∧ e.h ∈ List.range (numCells shape) := by
+  intro e he
+  obtain ⟨h1, _, h3, _, h5⟩ := (mem_edgesOf shape periodic e).mp he
+  have hn : shape.getD e.ax 1 - 1 < shape.getD e.ax 1 := by
+    have : 0 < shape.getD e.ax 1 := by
+      rw [List.getD_eq_getElem?_getD, List.getElem?_eq_getElem h1]
+      exact hpos _ (List.getElem_mem h1)
+    omega
+  have := (setCoord_spec shape hpos e.l e.ax _ hn).1
+  exact ⟨List.mem_range.mpr h3, List.mem_range.mpr (h5 ▸ this)⟩
+
+/-- **One droplet in, one cluster out, with the exact number of covered cells.**  For every well-formed
+grid, centre and radius such that the droplet covers at least one cell centre, the pipeline that the
+driver executes (`locateMask`: labelling + periodic merging) returns a list with exactly ONE entry whose
+volume (in cells) is the number of cell centres the droplet covers. -/
+theorem locateMask_single (h : GridWF axes ctr) (R : ℚ) (maskL : List Bool)
+    (hm : ∀ c, maskL.getD c false = ballMask axes ctr R c) (hne : ∃ c, ballMask axes ctr R c = true) :
+    ∃ r pos, locateMask (shapeOf axes) (perOf axes) maskL =
+      [(r, (((List.range (numCells (shapeOf axes))).filter (ballMask axes ctr R)).length : ℚ), pos)] := by
+  set shape := shapeOf axes with hshape
+  set per := perOf axes with hper
+  set mask := ballMask axes ctr R with hmaskdef
+  have hpos := shape_pos axes ctr h
+  have hmfun : (fun c => maskL.toArray.getD c false) = mask := by
+    funext c
+    rw [← hm c]
+    simp only [Array.getD, List.getD_eq_getElem?_getD, List.size_toArray]
+    split <;> simp_all
+  unfold locateMask
+  simp only
+  rw [hmfun]
+  unfold locateCells
+  simp only
+  set labels := labelExec shape mask with hlabels
+  set n := numCells shape with hn
+  set cells := List.range n with hcells
+  have hL : (fun c => labels.getD c 0) = labelFn shape mask := rfl
+  rw [hL]
+  set L := labelFn shape mask with hLdef
+  set shp : ℕ → ℕ := fun a => shape.getD a 1 with hshp
+  set st := mergeLoop shp L (initSt (coordOf shape) L cells) (edgesOf shape per) with hst
+  have hmask : ∀ c, mask c = true → c < n := fun c hc => ((ballMask_iff axes ctr R c).mp hc).1
+  obtain ⟨c0, hc0⟩ := hne
+  have hone := single_droplet_one_cluster axes ctr h R (coordOf shape) cells shp
+  have hposlab := (locateMask_partition shape per mask hmask (coordOf shape) cells shp).1
+  set r0 := st.lab c0 with hr0
+  have hr0pos : 0 < r0 := (hposlab c0).mpr hc0
+  -- the label of every cell: r0 on the mask, 0 elsewhere
+  have hlab : ∀ c, st.lab c = if mask c = true then r0 else 0 := by
+    intro c
+    by_cases hc : mask c = true
+    · rw [if_pos hc]; exact hone c c0 hc hc0
+    · rw [if_neg hc]
+      have : ¬ 0 < st.lab c := (hposlab c).not.mpr hc
+      omega
+  -- r0 is one of the initial labels
+  have hr0le : r0 ≤ labels.foldl max 0 := by
+    obtain ⟨c', hc'⟩ := lab_mem_init shp L (coordOf shape) cells (edgesOf shape per) c0
+    rw [hr0, hc']
+    exact getD_le_foldl_max labels c'
+  have hfilter : ((List.range (labels.foldl max 0 + 1)).filter fun r => decide (r > 0) && cells.any fun c => st.lab c == r) = [r0] := by
+    apply filter_eq_singleton _ List.nodup_range (List.mem_range.mpr (by omega))
+    intro r _
+    simp only [Bool.and_eq_true, decide_eq_true_eq, List.any_eq_true, beq_iff_eq]
+    constructor
+    · rintro ⟨hr, c, _, hc⟩
+      rw [hlab c] at hc
+      split at hc
+      · exact hc.symm
+      · omega
+    · rintro rfl
+      exact ⟨hr0pos, c0, List.mem_range.mpr (hmask c0 hc0), rfl⟩
+  rw [hfilter]
+  simp only [List.map_cons, List.map_nil]
+  refine ⟨r0, (List.range shape.length).map fun a => st.pos r0 a, ?_⟩
+  congr 2
+  -- volume
+  have hpres : Present st cells r0 := ⟨hr0pos, c0, List.mem_range.mpr (hmask c0 hc0), rfl⟩
+  have hvol := mergeLoop_volume shp L (coordOf shape) cells (edgesOf shape per) (edgesOf_cells shape per hpos) r0 hpres
+  rw [hvol, count_eq_length]
+  have hfc : (cells.filter fun c => st.lab c == r0) = cells.filter mask := by
+    apply List.filter_congr
+    intro c _
+    rw [hlab c]
+    by_cases hc : mask c = true
+    · simp [hc]
+    · have : mask c = false := by simpa using hc
+      simp [this]; omega
+  rw [hfc]
+
+/-- non-vacuity: a 5×8 grid, periodic along the second axis, droplet of radius 1.3 centred at (2.5, 7.9),
+i.e. straddling the periodic boundary: the hypotheses hold, and the executed pipeline returns one cluster
+of 6 cells at (2.5, 0) ≡ (2.5, 8), within half a cell of the centre -/
+def axesEx : List Axis := [⟨0, 1, 5, false⟩, ⟨0, 1, 8, true⟩]
+
+example : GridWF axesEx [5/2, 79/10] := by
+  refine ⟨?_, rfl⟩
+  intro a ha
+  simp only [axesEx, List.mem_cons, List.not_mem_nil, or_false] at ha
+  rcases ha with rfl | rfl <;> exact ⟨by norm_num, by norm_num⟩
+
+example : locateMask [5, 8] [false, true] ((List.range 40).map (ballMask axesEx [5/2, 79/10] (13/10)))
+    = [(1, 6, [5/2, 0])] := by decide +kernel
 
 end DV.C01
